@@ -994,4 +994,20 @@ def srchash_splitCouple : String := "ae021b08e0e9b67c"
 /-- sha256 of the printed source of kvm.Set (/repo/31/cvss31.go:925:1) -/
 def srchash_kvm_Set : String := "a4ff4c38bdba813b"
 
+/-- package-level variables (name:type) -/
+def pkg_vars : List String :=
+  ["ErrInvalidCVSSHeader:error", "ErrInvalidMetricValue:error", "ErrOutOfBoundsScore:error", "ErrTooShortVector:error"]
+
+/-- function:variable for every assignment to (or address-of) a package-level variable inside a function body -/
+def pkg_writes : List String :=
+  []
+
+/-- function:variable.method for every method call on a package-level variable; function:go for goroutine starts -/
+def pkg_calls : List String :=
+  []
+
+/-- function:unsafe.X for every use of package unsafe -/
+def pkg_unsafe : List String :=
+  ["CVSS31.Vector:unsafe.Pointer"]
+
 end GenV31
